@@ -432,10 +432,18 @@ func absFunctionCalculator(parameters []*variants.Variant,
 	result := variants.EmptyVariant()
 	switch value.Type() {
 	case variants.Integer:
-		result.SetAsInteger(int(math.Abs(float64(value.AsInteger()))))
+		if v := value.AsInteger(); v < 0 {
+			result.SetAsInteger(-v)
+		} else {
+			result.SetAsInteger(v)
+		}
 		break
 	case variants.Long:
-		result.SetAsLong(int64(math.Abs(float64(value.AsLong()))))
+		if v := value.AsLong(); v < 0 {
+			result.SetAsLong(-v)
+		} else {
+			result.SetAsLong(v)
+		}
 		break
 	case variants.Float:
 		result.SetAsFloat(float32(math.Abs(float64(value.AsFloat()))))
